@@ -693,10 +693,10 @@ class Progress(JupyterMixin, RenderHook):
                 self.console.show_cursor(True)
                 self._disable_redirect_io()
                 self.console.pop_render_hook()
+            if self.transient:
+                self.console.control(self._live_render.restore_cursor())
         if refresh_thread is not None:
             refresh_thread.join()
-        if self.transient:
-            self.console.control(self._live_render.restore_cursor())
         if self.ipy_widget is not None and self.transient:  # pragma: no cover
             self.ipy_widget.clear_output()
             self.ipy_widget.close()
